@@ -5,7 +5,7 @@ import math
 import astral
 from astral import Depression, SunDirection
 import astral.sun as sun
-from common import F, FS, I, T, TZD, B, E, N, Case, call, wall_us, instant_us, td_us
+from common import F, FS, I, T, TZD, B, E, N, Case, call, invoke, wall_us, instant_us, td_us
 import zones
 import gens
 from gens import obs_tok, obs_descr, dir_tok
@@ -302,19 +302,19 @@ def gen_events(rng, n, tier="quick"):
         else:
             prev = (o, d, k) if rng.random() < 0.5 else prev
         if rng.random() < 0.12 and k < 6:
-            base0 = {0: lambda: sun.dawn(o, d), 1: lambda: sun.dusk(o, d),
-                     2: lambda: sun.sunrise(o, d), 3: lambda: sun.sunset(o, d),
-                     4: lambda: sun.time_at_elevation(o, 6.0, d, RISING),
-                     5: lambda: sun.time_at_elevation(o, -6.0, d, SETTING)}[k]
+            base0 = {0: lambda: invoke(sun.dawn, o, d), 1: lambda: invoke(sun.dusk, o, d),
+                     2: lambda: invoke(sun.sunrise, o, d), 3: lambda: invoke(sun.sunset, o, d),
+                     4: lambda: invoke(sun.time_at_elevation, o, 6.0, d, RISING),
+                     5: lambda: invoke(sun.time_at_elevation, o, -6.0, d, SETTING)}[k]
             st0, t0 = call(base0)
             if st0 == "ok":
                 o = lon_for_utc_midnight(rng, o, t0)
         if rng.random() < 0.3 and k < 6:
             # a zone in which this very event reads ~00:00: retry / "Unable to find" branches
-            base = {0: lambda: sun.dawn(o, d), 1: lambda: sun.dusk(o, d),
-                    2: lambda: sun.sunrise(o, d), 3: lambda: sun.sunset(o, d),
-                    4: lambda: sun.time_at_elevation(o, 6.0, d, RISING),
-                    5: lambda: sun.time_at_elevation(o, -6.0, d, SETTING)}[k]
+            base = {0: lambda: invoke(sun.dawn, o, d), 1: lambda: invoke(sun.dusk, o, d),
+                    2: lambda: invoke(sun.sunrise, o, d), 3: lambda: invoke(sun.sunset, o, d),
+                    4: lambda: invoke(sun.time_at_elevation, o, 6.0, d, RISING),
+                    5: lambda: invoke(sun.time_at_elevation, o, -6.0, d, SETTING)}[k]
             st0, t0 = call(base)
             if st0 == "ok":
                 z = zones.midnight_zone(rng, t0)
@@ -370,14 +370,14 @@ def gen_events(rng, n, tier="quick"):
         tz = z.tzinfo
         if k == 0:
             yield _event_case(rng, "dawn", o, d, z, " " + F(dep),
-                              lambda: sun.dawn(o, d, dep, tz), {"depression": dep})
+                              lambda: invoke(sun.dawn, o, d, dep, tz), {"depression": dep})
         elif k == 1:
             yield _event_case(rng, "dusk", o, d, z, " " + F(dep),
-                              lambda: sun.dusk(o, d, dep, tz), {"depression": dep})
+                              lambda: invoke(sun.dusk, o, d, dep, tz), {"depression": dep})
         elif k == 2:
-            yield _event_case(rng, "sunrise", o, d, z, "", lambda: sun.sunrise(o, d, tz), {})
+            yield _event_case(rng, "sunrise", o, d, z, "", lambda: invoke(sun.sunrise, o, d, tz), {})
         elif k == 3:
-            yield _event_case(rng, "sunset", o, d, z, "", lambda: sun.sunset(o, d, tz), {})
+            yield _event_case(rng, "sunset", o, d, z, "", lambda: invoke(sun.sunset, o, d, tz), {})
         elif k in (4, 5):
             el = rng.choice([6.0, -6.0, -4.0, 0.0, rng.uniform(-20, 90), rng.uniform(-20, 30),
                              rng.uniform(90, 200)])
@@ -394,9 +394,9 @@ def gen_events(rng, n, tier="quick"):
                 {"observer": obs_descr(o), "date": str(d), "zone": z.describe(),
                  "elevation": el, "dir": di.name, "with_refraction": wr}, tags)
         elif k == 6:
-            yield _event_case(rng, "noon", o, d, z, "", lambda: sun.noon(o, d, tz), {})
+            yield _event_case(rng, "noon", o, d, z, "", lambda: invoke(sun.noon, o, d, tz), {})
         elif k == 7:
-            yield _event_case(rng, "midnight", o, d, z, "", lambda: sun.midnight(o, d, tz), {})
+            yield _event_case(rng, "midnight", o, d, z, "", lambda: invoke(sun.midnight, o, d, tz), {})
         else:
             def fmt(v, tzi):
                 if type(v) is not dict or list(v.keys()) != ["dawn", "sunrise", "noon", "sunset", "dusk"]:
@@ -404,7 +404,7 @@ def gen_events(rng, n, tier="quick"):
                 return " ".join(TZD(v[key], tzi) for key in
                                 ("dawn", "sunrise", "noon", "sunset", "dusk"))
             yield _event_case(rng, "sun", o, d, z, " " + F(dep),
-                              lambda: sun.sun(o, d, dep, tz), {"depression": dep}, fmt)
+                              lambda: invoke(sun.sun, o, d, dep, tz), {"depression": dep}, fmt)
 
 
 def gen_periods(rng, n, tier="quick"):
@@ -414,8 +414,8 @@ def gen_periods(rng, n, tier="quick"):
         d = gens.rand_date(rng, z) if z.iana else d0
         o = gens.rand_observer(rng)
         if rng.random() < 0.2:
-            st0, t0 = call(rng.choice([lambda: sun.dusk(o, d), lambda: sun.dawn(o, d),
-                                       lambda: sun.sunrise(o, d), lambda: sun.sunset(o, d)]))
+            st0, t0 = call(rng.choice([lambda: invoke(sun.dusk, o, d), lambda: invoke(sun.dawn, o, d),
+                                       lambda: invoke(sun.sunrise, o, d), lambda: invoke(sun.sunset, o, d)]))
             if st0 == "ok":
                 z = zones.midnight_zone(rng, t0)
         if rng.random() < 0.08 and not isinstance(o.elevation, tuple):
@@ -431,22 +431,22 @@ def gen_periods(rng, n, tier="quick"):
         k = i % 6
         di = rng.choice([RISING, SETTING])
         if k == 0:
-            yield _event_case(rng, "daylight", o, d, z, "", lambda: sun.daylight(o, d, tz), {}, tpair)
+            yield _event_case(rng, "daylight", o, d, z, "", lambda: invoke(sun.daylight, o, d, tz), {}, tpair)
         elif k == 1:
-            yield _event_case(rng, "night", o, d, z, "", lambda: sun.night(o, d, tz), {}, tpair)
+            yield _event_case(rng, "night", o, d, z, "", lambda: invoke(sun.night, o, d, tz), {}, tpair)
         elif k == 2:
             yield _event_case(rng, "twilight", o, d, z, " " + dir_tok(di),
-                              lambda: sun.twilight(o, d, di, tz), {"dir": di.name}, tpair)
+                              lambda: invoke(sun.twilight, o, d, di, tz), {"dir": di.name}, tpair)
         elif k == 3:
             yield _event_case(rng, "golden_hour", o, d, z, " " + dir_tok(di),
-                              lambda: sun.golden_hour(o, d, di, tz), {"dir": di.name}, tpair)
+                              lambda: invoke(sun.golden_hour, o, d, di, tz), {"dir": di.name}, tpair)
         elif k == 4:
             yield _event_case(rng, "blue_hour", o, d, z, " " + dir_tok(di),
-                              lambda: sun.blue_hour(o, d, di, tz), {"dir": di.name}, tpair)
+                              lambda: invoke(sun.blue_hour, o, d, di, tz), {"dir": di.name}, tpair)
         else:
             day = rng.random() < 0.5
             yield _event_case(rng, "rahukaalam", o, d, z, " " + B(day),
-                              lambda: sun.rahukaalam(o, d, day, tz), {"daytime": day}, tpair)
+                              lambda: invoke(sun.rahukaalam, o, d, day, tz), {"daytime": day}, tpair)
 
 
 def subsolar(rng, naive):
@@ -606,16 +606,16 @@ def gen_extreme(rng, n, tier="quick"):
         k = i % 10
         if k == 0:
             dep = rng.choice([0.0, 180.0, 90.0, rng.uniform(0, 180)])
-            yield _event_case(rng, "dawn", o, d, z, " " + F(dep), lambda: sun.dawn(o, d, dep, tz),
+            yield _event_case(rng, "dawn", o, d, z, " " + F(dep), lambda: invoke(sun.dawn, o, d, dep, tz),
                               {"depression": dep})
         elif k == 1:
             dep = rng.choice([0.0, 180.0, 90.0, rng.uniform(0, 180)])
-            yield _event_case(rng, "dusk", o, d, z, " " + F(dep), lambda: sun.dusk(o, d, dep, tz),
+            yield _event_case(rng, "dusk", o, d, z, " " + F(dep), lambda: invoke(sun.dusk, o, d, dep, tz),
                               {"depression": dep})
         elif k == 2:
-            yield _event_case(rng, "sunrise", o, d, z, "", lambda: sun.sunrise(o, d, tz), {})
+            yield _event_case(rng, "sunrise", o, d, z, "", lambda: invoke(sun.sunrise, o, d, tz), {})
         elif k == 3:
-            yield _event_case(rng, "sunset", o, d, z, "", lambda: sun.sunset(o, d, tz), {})
+            yield _event_case(rng, "sunset", o, d, z, "", lambda: invoke(sun.sunset, o, d, tz), {})
         elif k == 4:
             el = rng.choice([-91.0, 270.0, 90.0, 180.0, 0.0, rng.uniform(-91, 270)])
             di = rng.choice([RISING, SETTING])
@@ -627,9 +627,9 @@ def gen_extreme(rng, n, tier="quick"):
                 {"observer": obs_descr(o), "date": str(d), "zone": z.describe(), "elevation": el,
                  "dir": di.name, "with_refraction": wr})
         elif k == 5:
-            yield _event_case(rng, "noon", o, d, z, "", lambda: sun.noon(o, d, tz), {})
+            yield _event_case(rng, "noon", o, d, z, "", lambda: invoke(sun.noon, o, d, tz), {})
         elif k == 6:
-            yield _event_case(rng, "midnight", o, d, z, "", lambda: sun.midnight(o, d, tz), {})
+            yield _event_case(rng, "midnight", o, d, z, "", lambda: invoke(sun.midnight, o, d, tz), {})
         elif k == 7:
             di = rng.choice([RISING, SETTING])
             fn = rng.choice(["twilight", "golden_hour", "blue_hour"])
@@ -641,7 +641,7 @@ def gen_extreme(rng, n, tier="quick"):
         else:
             day = rng.random() < 0.5
             yield _event_case(rng, "rahukaalam", o, d, z, " " + B(day),
-                              lambda: sun.rahukaalam(o, d, day, tz), {"daytime": day}, tpair)
+                              lambda: invoke(sun.rahukaalam, o, d, day, tz), {"daytime": day}, tpair)
 
 
 def gen_builtin_noon(rng, n, tier="quick"):
